@@ -63,6 +63,42 @@ def documents(value):
     return docs
 
 
+# One long-lived caller object whose document is replaced before every read, and one long-lived
+# document whose attribute is rewritten in place: what a reader returns belongs to the document
+# the caller holds *now*, not to the one (or the text) it saw on an earlier call.
+_OWNER = types.SimpleNamespace(document=None)
+_LIVE = {}
+
+
+def reused_owner(doc):
+    _OWNER.document = doc.document
+    return _OWNER
+
+
+def live_document(value):
+    """The same caller object and the same lxml tree every time, attribute edited in place;
+    None when the text cannot be an XML attribute value."""
+    from lxml import etree                  # pylint: disable=import-outside-toplevel
+    if "owner" not in _LIVE:
+        root = etree.Element("svg")
+        etree.SubElement(root, "g")
+        _LIVE["root"] = root
+        _LIVE["owner"] = types.SimpleNamespace(document=etree.ElementTree(root))
+    root = _LIVE["root"]
+    try:
+        if value is None:
+            root.attrib.pop("width", None)
+        else:
+            root.set("width", value)
+    except (ValueError, TypeError):
+        return None
+    return _LIVE["owner"]
+
+
+def _same(one, two):
+    return one == two or (one != one and two != two)      # pylint: disable=comparison-with-itself
+
+
 def close(got, want, rel=F(1, 10 ** 12)):
     if not isinstance(got, float):
         return False
@@ -138,9 +174,27 @@ def check_valid(numeral, unit, space_idx):
                     out.append(("getLength", f"getLength(<{desc}>, default={ref_doc!r}) = "
                                 f"{px_len!r}, expected {float(want_px)!r}"))
                     break
+                again = plot_utils.getLength(reused_owner(doc), "width", ref_doc)
+                live = live_document(text)
+                edited = px_len if live is None else plot_utils.getLength(live, "width", ref_doc)
+                if not _same(again, px_len) or not _same(edited, px_len):
+                    out.append(("owner_reuse", f"getLength(<{desc}>, default={ref_doc!r}) = "
+                                f"{px_len!r} from a fresh caller object, {again!r} from a caller "
+                                f"object that held another document on its previous call, "
+                                f"{edited!r} from a document whose attribute was just rewritten"))
+                    break
         for k, doc in enumerate(documents(text)):
             kind = ("stub document", "real <svg> without children", "real <svg> with a child")[k]
             inches = plot_utils.getLengthInches(doc, "width")
+            again = plot_utils.getLengthInches(reused_owner(doc), "width")
+            live = live_document(text)
+            edited = inches if live is None else plot_utils.getLengthInches(live, "width")
+            if not _same(again, inches) or not _same(edited, inches):
+                out.append(("owner_reuse", f"getLengthInches(<{desc}>) [{kind}] = {inches!r} from "
+                            f"a fresh caller object, {again!r} from a caller object that held "
+                            f"another document on its previous call, {edited!r} from a document "
+                            f"whose attribute was just rewritten"))
+                break
             if unit == "%":
                 if inches is not None:
                     out.append(("inches_pct", f"getLengthInches(<{desc}>) = {inches!r} for a "
